@@ -250,10 +250,44 @@ def run_mutators(R):
             else:
                 ops.append(('addedge', rng.randint(0, n + 2), rng.randint(0, n + 2)))
         H.append((V, E, ops))
+    def read_back(G, g, rr):
+        """one read-only call on the live graph, compared with what the CURRENT model graph g says (the read-only API must
+        answer for the graph as it is now: a node set / reversed graph remembered from before an edit would show up here)"""
+        nodes, edges = mset(g)
+        k = rr.randrange(6)
+        if k == 0:
+            return 'nodes()', sorted(G.nodes()), nodes
+        if k == 1:
+            return 'edges()', sorted(G.edges()), edges
+        if k == 2:
+            return 'sources()', sorted(G.sources()), sorted({a for a, _ in edges})
+        if k == 3:
+            X = [v for v in nodes if rr.random() < 0.7] + [max(nodes + [0]) + 1]
+            S = G.get_subgraph(list(X))
+            Xs = set(X) & set(nodes)
+            return 'get_subgraph(%s)' % X, gset(S), (sorted(Xs), sorted((a, b) for a, b in edges if a in Xs and b in Xs))
+        if k == 4:
+            return 'get_reversed_graph()', gset(G.get_reversed_graph()), (nodes, sorted((b, a) for a, b in edges))
+        if not nodes:
+            return 'nodes()', sorted(G.nodes()), nodes
+        x = rr.choice(nodes)
+        seen, todo = {x}, [x]
+        while todo:
+            a = todo.pop()
+            for (c, d) in edges:
+                if c == a and d not in seen:
+                    seen.add(d)
+                    todo.append(d)
+        return 'get_reachable_set_from([%s])' % x, sorted(G.get_reachable_set_from([x])), sorted(seen)
+
     live = []
+    rr = random.Random(R.seed + 137)
+    nreads = 0
     for V, E, ops in H:
         G = DiGraph(V=V, E=E)
         live.append({'G': G, 'g': graph_sx(G), 'ok': True, 'trace': []})
+        what, got, want = read_back(G, live[-1]['g'], rr)          # the caller looks at the graph BEFORE editing it
+        live[-1]['trace'].append(('read', what))
     maxlen = max(len(h[2]) for h in H)
     for step in range(maxlen):
         cmds, idx = [], []
@@ -279,6 +313,17 @@ def run_mutators(R):
             else:
                 good = (r == ('err', 'RuntimeError') and after == before)
             st['trace'].append((op, r[0] if r[0] == 'ok' else r[1]))
+            if good:
+                rd = call(lambda: read_back(G, st['g'], rr))
+                nreads += 1
+                if rd[0] != 'ok' or rd[1][1] != rd[1][2]:
+                    st['ok'] = False
+                    R.violation('a read-only call after add_node / add_edge does not answer for the graph as it is now',
+                                {'stream': 'mutators', 'V': H[i][0], 'E': H[i][1], 'history': [list(map(str, t)) for t in st['trace']],
+                                 'read': rd[1][0] if rd[0] == 'ok' else rd, 'impl': rd[1][1] if rd[0] == 'ok' else None,
+                                 'expected_on_current_graph': rd[1][2] if rd[0] == 'ok' else None})
+                    continue
+                st['trace'].append(('read', rd[1][0]))
             if not good:
                 st['ok'] = False
                 R.violation('DiGraph.%s after construction differs from the proved model' % ('add_node' if op[0] == 'addnode' else 'add_edge'),
@@ -298,6 +343,34 @@ def run_mutators(R):
         else:
             R.nontriv(('mut', tuple(H[i][0]), tuple(sorted(H[i][1])), tuple(H[i][2])))
     R.cov['mutator_histories'] = len(H)
+    R.cov['mutator_interleaved_reads'] = nreads
+
+
+def run_large(R):
+    """graphs with thousands of nodes (the model's unary numbers are not run at this size; the expected values are known in
+    closed form): a chain 0 -> 1 -> ... -> n with one back edge n -> n/2.  The operations are iterative worklists, they may not
+    depend on the length of paths (no RecursionError) and stay exact"""
+    from pyModelChecking.graph import DiGraph
+    for n in (4000, 2500):
+        h = n // 2
+        E = [(i, i + 1) for i in range(n)] + [(n, h)]
+        G = DiGraph(E=E)
+        s0 = len(G.edges())
+        checks = [('get_reachable_set_from([0])', lambda: sorted(G.get_reachable_set_from([0])), list(range(n + 1))),
+                  ('get_reachable_set_from([n-5])', lambda: sorted(G.get_reachable_set_from([n - 5])), list(range(h, n + 1))),
+                  ('reversed.get_reachable_set_from([3])', lambda: sorted(G.get_reversed_graph().get_reachable_set_from([3])), [0, 1, 2, 3]),
+                  ('reversed.get_reachable_set_from([n])', lambda: sorted(G.get_reversed_graph().get_reachable_set_from([n])), list(range(n + 1))),
+                  ('get_subgraph(range(1000)) edges', lambda: sorted(G.get_subgraph(range(1000)).edges()), [(i, i + 1) for i in range(999)]),
+                  ('clone edges', lambda: sorted(G.clone().edges()), sorted(E))]
+        for what, fn, want in checks:
+            R.evaluations += 1
+            r = call(fn)
+            if r[0] != 'ok' or r[1] != want or len(G.edges()) != s0:
+                R.violation('on a chain of %d nodes %s %s' % (n + 1, what, ('raised ' + str(r[1])) if r[0] != 'ok' else 'is not exact'),
+                            {'stream': 'large', 'n': n, 'operation': what, 'impl': r if r[0] != 'ok' else ['ok', 'a set/graph with %d elements' % len(r[1])],
+                             'expected_size': len(want)})
+            else:
+                R.nontriv(('large', n, what))
 
 
 def run(R):
@@ -308,6 +381,7 @@ def run(R):
     rng = R.rng
     run_exotic(R)
     run_mutators(R)
+    run_large(R)
     cases = []
     for n in range(0, 4):
         nodes = list(range(n))
@@ -378,6 +452,11 @@ def run(R):
 
 def replay(R, data):
     d = data['data']
+    if d.get('stream') == 'large':
+        n0 = len(R.violations)
+        run_large(R)
+        print('large graphs re-run: %d violation(s)' % (len(R.violations) - n0))
+        return
     if d.get('stream') == 'exotic node objects':
         g, obs = exotic_case(d['family'], d['n'], [tuple(e) for e in d['E']], d['X'])
         print('impl :', obs)
